@@ -106,6 +106,8 @@ type env struct {
 	// propOverride: attribute every violation to this property (families whose
 	// property subsumes the others', e.g. C11 "... the installed entries are exactly those acknowledged").
 	propOverride string
+	// standbySessions: idle sessions the family keeps connected on purpose (session-footprint checks)
+	standbySessions int
 	// invalidKeys: keys named by the invalid operations of the request being checked (C12: no effect)
 	invalidKeys map[Key]string
 	// snapCache: the implementation snapshot taken once per quiescent-point batch
